@@ -14,8 +14,8 @@ EVENTS = ["ConnectionHandshakeComplete", "ConnectionUp", "FeaturesReceived", "Po
           "ErrorIn", "BarrierIn", "RawStatsReply", "SwitchDescReceived"]
 TAGGED = {"PortStatus", "PacketIn", "ErrorIn", "BarrierIn"}        # events whose argument is the xid of the message
 T_HELLO, T_ERROR, T_ECHO_REQ, T_FEAT_REP, T_PACKET_IN, T_PORT_STATUS, T_STATS_REP, T_BARRIER_REQ, T_BARRIER_REP = 0, 1, 2, 6, 10, 12, 17, 18, 19
-KIND_OF_TYPE = {0: "hello", 1: "error", 2: "echo_request", 6: "features_reply", 10: "packet_in", 12: "port_status", 17: "stats_desc", 19: "barrier_reply"}
-ASYNC = ["port_status", "echo_request", "packet_in", "error"]
+KIND_OF_TYPE = {0: "hello", 1: "error", 2: "echo_request", 3: "echo_reply", 6: "features_reply", 10: "packet_in", 12: "port_status", 17: "stats_desc", 19: "barrier_reply"}
+ASYNC = ["port_status", "echo_request", "packet_in", "error", "echo_reply", "error0"]
 BAD_XID = 0x7ffffff0                                                # never drawn by the counter in a run of this size
 
 
@@ -251,7 +251,7 @@ class C09(Check):
             "x {eof, select error, disconnect(), send error} x {alone, beside a live connection of the same datapath} x 2 batchings, every interleaving of the 4 handshake "
             "messages (both finishing variants) with <= 2 insertions of {port_status, echo_request, packet_in, error(other xid), error(other code)}, all 24 orders of the 4 "
             "handshake messages with <= 1 insertion, every connect/up/lose order of 2 connections; generated = sampled 3-insertion interleavings and 3-connection orders "
-            "(exhaustive in the thorough tier) + seeded random histories (30% with neighbouring reads / EOFs / accepts merged into ONE select round); + all 70 interleavings of two connections' handshakes (x same/different datapath x both finishing variants), 22 hand-written multi-event select rounds (error list + readable list, both orders, accept next to data, the new connection's barrier reply next to the stale one's EOF), the API called positionally / by keyword / with a message object, and the hand-written + sampled interleaved / round histories again behind a prelude that burns 260 xids (every xid above 256); + ~690 of the hand-written / loss-point / 2-connection histories re-run with re-entrant application listeners (7 listener behaviours; compared with the listener model runL); non-trivial = at least one message was dispatched")
+            "(exhaustive in the thorough tier) + seeded random histories (30% with neighbouring reads / EOFs / accepts merged into ONE select round); + all 70 interleavings of two connections' handshakes (x same/different datapath x both finishing variants), 22 hand-written multi-event select rounds (error list + readable list, both orders, accept next to data, the new connection's barrier reply next to the stale one's EOF), the API called positionally / by keyword / with a message object, and the hand-written + sampled interleaved / round histories again behind a prelude that burns 260 xids (every xid above 256); + ~690 of the hand-written / loss-point / 2-connection histories re-run with re-entrant application listeners (7 listener behaviours; compared with the listener model runL); + the error sweep: at each of the 3 positions between hello and the barrier answer an ERROR of every (type, code) (3x3 in the quick corpus, 6x9 in the thorough tier) with xid in {0, the barrier's, the features request's, barrier+-1, 2^31-1, 2^32-1}, and every other kind of message (echo request / reply, packet-in, port status, desc stats reply, hello, barrier replies with those xids), followed by the real barrier reply; non-trivial = at least one message was dispatched")
 
     def setup(self):
         self.core = poxenv.boot()
@@ -396,6 +396,7 @@ class C09(Check):
             elif kind == "error": o = of.ofp_error(type=key[0], code=key[1], data=b"\x01\x12\x00\x08\x00\x00\x00\x00")
             elif kind == "port_status": o = of.ofp_port_status(reason=key % 3, desc=ofgen.build(ofgen.phy_port(rng)))
             elif kind == "echo_request": o = of.ofp_echo_request(body=b"ping")
+            elif kind == "echo_reply": o = of.ofp_echo_reply(body=b"pong")
             elif kind == "packet_in": o = of.ofp_packet_in(in_port=1, reason=0, data=b"\x00" * 14)
             else: raise KeyError(kind)
             o.xid = 0
@@ -410,6 +411,18 @@ class C09(Check):
         elif kind == "port_status": t = self._template(kind, m.get("r", 0))
         else: t = self._template(kind, 0)
         return t[:4] + struct.pack("!L", xid) + t[8:]
+
+    @staticmethod
+    def resolve_x(x, c, log):
+        """xids written relative to what the controller sent on connection c: "good" = its latest barrier request, "good+1" / "good-1",
+        "freq" = its latest features request (a value that names no request of that kind stands in when there is none)"""
+        if not isinstance(x, str): return x
+        good, freq = BAD_XID, BAD_XID - 2
+        for e in log:
+            if e[0] == "sent" and e[1] == c:
+                if e[2] == T_BARRIER_REQ: good = e[3]
+                if e[2] == 5: freq = e[3]
+        return {"good": good, "good+1": good + 1, "good-1": good - 1, "freq": freq}[x]
 
     # ------------------------------------------------------------------ implementation
     def impl(self, case):
@@ -435,12 +448,9 @@ class C09(Check):
                 w.connect(); resolved.append({"op": "connect"})
             elif k == "recv":
                 c, data = op["c"], b""
-                good = BAD_XID
-                for e in w.log:
-                    if e[0] == "sent" and e[1] == c and e[2] == T_BARRIER_REQ: good = e[3]
+                snap = list(w.log)
                 for m in op["msgs"]:
-                    x = m.get("x", 0)
-                    if x == "good": x = good
+                    x = self.resolve_x(m.get("x", 0), c, snap)
                     b = self.msg_bytes(m, x)
                     if len(data) + len(b) > 2048:                    # one read() takes at most 2048 bytes: split at a message boundary
                         if c < len(w.cons): w.recv(c, data)
@@ -451,9 +461,7 @@ class C09(Check):
                 if c < len(w.cons): w.recv(c, data)
             elif k == "round":
                 # several events in one select round; the task handles the error list first, then the readable ones in order
-                good = {}
-                for e in w.log:
-                    if e[0] == "sent" and e[2] == T_BARRIER_REQ: good[e[1]] = e[3]
+                snap = list(w.log)
                 for c in op.get("e", []): resolved.append({"op": "eof", "c": c})
                 ritems = []
                 for it in op.get("r", []):
@@ -461,8 +469,7 @@ class C09(Check):
                         resolved.append({"op": "connect"}); ritems.append("new"); continue
                     c, data = it["c"], b""
                     for m in it.get("msgs", []):
-                        x = m.get("x", 0)
-                        if x == "good": x = good.get(c, BAD_XID)
+                        x = self.resolve_x(m.get("x", 0), c, snap)
                         data += self.msg_bytes(m, x)
                         r = dict(m); r["x"] = x; r.pop("r", None); r["op"] = "msg"; r["c"] = c
                         resolved.append(r)
@@ -568,6 +575,8 @@ class C09(Check):
         if kind == "packet_in": return self.M("packet_in", 80 + j)
         if kind == "error": return self.M("error", BAD_XID + 1, ty=1, code=1)          # "barrier unsupported"-shaped, but for another xid
         if kind == "error_type": return self.M("error", "good", ty=1, code=2)          # right xid, another code
+        if kind == "echo_reply": return self.M("echo_reply", 75 + j)
+        if kind == "error0": return self.M("error", 0, ty=1, code=1)                    # "barrier unsupported"-shaped with xid 0 (an ordinary value)
         raise KeyError(kind)
 
     @staticmethod
@@ -576,7 +585,7 @@ class C09(Check):
         in the same read as the features reply that triggers the request)"""
         out, cur, feat_in_cur = [], [], False
         for m in msgs:
-            if mode == 0 or (m.get("x") == "good" and feat_in_cur):
+            if mode == 0 or (isinstance(m.get("x"), str) and feat_in_cur):
                 if cur: out.append({"op": "recv", "c": c, "msgs": cur})
                 cur, feat_in_cur = [], False
             cur.append(m)
@@ -794,6 +803,33 @@ class C09(Check):
         c = dict(case); c["ops"] = out
         return c
 
+    def error_sweep(self, full):
+        """between hello and the barrier answer, at every position, an ERROR of every (type, code) with every interesting xid — 0, the barrier
+        request's, the features request's, barrier ± 1, a large one — and every other kind of message the switch may send then; afterwards the real
+        barrier reply.  Only BAD_REQUEST/BAD_TYPE with exactly the barrier's xid may announce the connection."""
+        M = self.M
+        types = range(0, 6) if full else (0, 1, 2)
+        codes = range(0, 9) if full else (0, 1, 2)
+        xids = [0, "good", "freq", "good+1", "good-1", 0x7fffffff, 0xffffffff]
+        base = [M("hello", 11), M("features_reply", 12, d=5), M("stats_desc", 13)]
+        n = 0
+        for pos in (1, 2, 3):                                        # after hello / after the features reply / after the desc reply
+            for t in types:
+                for cd in codes:
+                    for x in xids:
+                        n += 1
+                        seq = base[:pos] + [M("error", x, ty=t, code=cd)] + base[pos:]
+                        ops = [{"op": "connect"}] + self.batches(0, seq, n % 2) + [{"op": "sendto", "d": 5, "x": 900},
+                               {"op": "recv", "c": 0, "msgs": [M("barrier_reply", "good")]}, {"op": "sendto", "d": 5, "x": 901}, {"op": "lose", "c": 0}]
+                        yield {"ops": ops, "tag": "error-sweep"}
+            others = [M("echo_request", 0), M("echo_reply", 0), M("packet_in", 0), M("port_status", 0), M("stats_desc", 0), M("hello", 0),
+                      M("barrier_reply", 0), M("barrier_reply", "good+1"), M("barrier_reply", "good-1"), M("barrier_reply", "freq")]
+            for o in others:
+                n += 1
+                seq = base[:pos] + [o] + base[pos:]
+                yield {"ops": [{"op": "connect"}] + self.batches(0, seq, n % 2) + [{"op": "sendto", "d": 5, "x": 900},
+                       {"op": "recv", "c": 0, "msgs": [M("barrier_reply", "good")]}, {"op": "sendto", "d": 5, "x": 901}, {"op": "lose", "c": 0}], "tag": "error-sweep"}
+
     def conventions(self):
         """the API called the other ways: disconnect(msg) positionally / by keyword, sendToDPID by keyword / with a message object"""
         C = {"op": "connect"}
@@ -838,7 +874,7 @@ class C09(Check):
         cases += [self.remap(c, self.DPID_MAPS[i % 3]) for i, c in enumerate(self.loss_points())]
         inter = list(self.interleaved_handshakes())
         rounds = list(self.rounds())
-        cases += inter + rounds + list(self.conventions())
+        cases += inter + rounds + list(self.conventions()) + list(self.error_sweep(False))
         cases += [self.remap(c, self.DPID_MAPS[i % 3]) for i, c in enumerate(rounds)]
         # the same with every xid above 256 (one extra connection in front that burns 260 xids)
         pre = self.high_xid_prelude()
@@ -863,18 +899,19 @@ class C09(Check):
                     st = stage.get(c, 0)
                     if rng.random() < 0.6 and st < 4:
                         m = dict(self.hs_msgs(dp[c] if c < ncon else 5, rng.choice(["barrier", "barrier", "error"]))[st]); stage[c] = st + 1
-                        if m.get("x") == "good" and any(x["m"] == "features_reply" for x in msgs): break
+                        if isinstance(m.get("x"), str) and any(x["m"] == "features_reply" for x in msgs): break
                     else:
-                        k = rng.choice(["port_status", "port_status", "echo_request", "packet_in", "error", "error_type", "hello", "stats_desc",
+                        k = rng.choice(["port_status", "port_status", "echo_request", "packet_in", "error", "error_type", "error0", "echo_reply", "error_any", "hello", "stats_desc",
                                         "barrier_reply", "barrier_good", "features_same"])
                         j = rng.randint(0, 9)
                         if k == "hello": m = self.M("hello", 100 + j)
                         elif k == "stats_desc": m = self.M("stats_desc", 110 + j)
                         elif k == "barrier_reply": m = self.M("barrier_reply", rng.choice([BAD_XID, rng.randint(1, 30)]))
                         elif k == "barrier_good": m = self.M("barrier_reply", "good")
+                        elif k == "error_any": m = self.M("error", rng.choice([0, "good", "freq", "good+1", "good-1", 0xffffffff]), ty=rng.randint(0, 5), code=rng.randint(0, 8))
                         elif k == "features_same": m = self.M("features_reply", 120 + j, d=dp[c] if c < ncon else 5)
                         else: m = self.async_msg(k, j)
-                        if m.get("x") == "good" and any(x["m"] == "features_reply" for x in msgs): break
+                        if isinstance(m.get("x"), str) and any(x["m"] == "features_reply" for x in msgs): break
                     msgs.append(m)
                 if msgs: ops.append({"op": "recv", "c": c, "msgs": msgs})
             elif r < 0.78: ops.append({"op": "sendto", "d": rng.choice([5, 6, 5, 6, 7]), "x": 900 + len(ops)})
@@ -895,6 +932,7 @@ class C09(Check):
 
     def _generate(self, rng, tier):
         if tier == "thorough":
+            for c in self.error_sweep(True): yield c
             for c in self.interleavings(3, False, ["port_status", "echo_request", "packet_in", "error", "error_type"]): yield c
             for c in self.interleavings(2, True, ASYNC): yield c
             for c in self.orders(3, [(5, 5, 5), (5, 5, 6), (5, 6, 5), (6, 5, 5)], [("eof", "err", "disc"), ("senderr", "eof", "sockfail")]): yield c
